@@ -60,21 +60,19 @@ theorem tables_are_modelled :
       "compile_match_branches", "compile_cexpr_effect", "compile_go", "compile_fn", "go_file"] := by
   refine ⟨by decide, rfl, by decide, by decide +kernel, by decide⟩
 
-/-- **T1, function level.**  `G` is any set of function names of the file on which the decidable
-    check `closedOK` succeeds (file-level name conditions + every member in the stage (a) fragment
-    with all its callees in `G` or builtins).  `args` / `gargs` are related scalar arguments of the
-    parameter types, `w` / `gw` worlds with the same stdout and extern events. -/
-theorem compile_preserves (env : Env) (file : AFile) (n0 : Nat) (G : List String)
-    (hG : closedOK env file n0 G = true) (P : Prog) (hP : P.fns = file.map AFn.toFn) (f : AFn) (hf : f ∈ file) (hfG : f.name ∈ G)
-    (η : Hp) (hη : η.fns = fnSigs file G) (args : List Val) (gargs : List GVal) (hargs : ArgsRel env η args gargs (f.params.map (·.2)))
+/-- T1 at function level from the facts about the two programs (`Link`) -/
+theorem compile_preserves_of_link {env : Env} {file : AFile} {G : List String} {P : Prog} {F : GFile} (hl : Link env file G P F)
+    (f : AFn) (hf : f ∈ file) (hfG : f.name ∈ G)
+    (η : Hp) (hη : η.fns = fnSigs file G) (hηd : η.dyns = dynTable env file G) (args : List Val) (gargs : List GVal)
+    (hargs : ArgsRel env η args gargs (f.params.map (·.2)))
     (w : World) (gw : GWorld) (hw : WRel env η w gw) (fuel : Nat) :
     match Sem.apply fuel P w (.fn f.name) args with
-    | .ok v w' => ∃ m η' gv gw', η.le η' ∧ callG m (goFilePreSt env file n0).1 gw (.func (fnName f.name)) gargs = .ok gv gw' ∧
+    | .ok v w' => ∃ m η' gv gw', η.le η' ∧ callG m F gw (.func (fnName f.name)) gargs = .ok gv gw' ∧
         VRel env η' v f.ret gv ∧ WRel env η' w' gw'
-    | .fail (.panic k) w' => ∃ m η' gw', η.le η' ∧ callG m (goFilePreSt env file n0).1 gw (.func (fnName f.name)) gargs =
+    | .fail (.panic k) w' => ∃ m η' gw', η.le η' ∧ callG m F gw (.func (fnName f.name)) gargs =
         .fail (.panic k) gw' ∧ WRel env η' w' gw'
     | _ => True := by
-  have h := (sim_all (link_of_closed hG hP) fuel).u f hf hfG η args gargs w gw hη hargs hw
+  have h := (sim_all hl fuel).u f hf hfG η args gargs w gw hη hηd hargs hw
   revert h
   cases Sem.apply fuel P w (.fn f.name) args with
   | ok v w' =>
@@ -90,16 +88,66 @@ theorem compile_preserves (env : Env) (file : AFile) (n0 : Nat) (G : List String
     | fuel => intro _; trivial
     | stuck s => intro _; trivial
 
+/-- **T1, function level.**  `G` is any set of function names of the file on which the decidable
+    check `closedOK` succeeds (file-level name conditions + every member in the fragment
+    with all its callees in `G` or builtins; no trait objects: see `compile_preserves_dyn`).  `args` / `gargs` are related
+    arguments of the parameter types (`VRel`), `w` / `gw` related worlds (`WRel`: same stdout, extern events and schedule,
+    the `Sem` store inside the Go heap, the no-spare-capacity `append` policy), `η` the heap context they are related in. -/
+theorem compile_preserves (env : Env) (file : AFile) (n0 : Nat) (G : List String)
+    (hG : closedOK env file n0 G = true) (P : Prog) (hP : P.fns = file.map AFn.toFn) (f : AFn) (hf : f ∈ file) (hfG : f.name ∈ G)
+    (η : Hp) (hη : η.fns = fnSigs file G) (hηd : η.dyns = dynTable env file G) (args : List Val) (gargs : List GVal)
+    (hargs : ArgsRel env η args gargs (f.params.map (·.2)))
+    (w : World) (gw : GWorld) (hw : WRel env η w gw) (fuel : Nat) :
+    match Sem.apply fuel P w (.fn f.name) args with
+    | .ok v w' => ∃ m η' gv gw', η.le η' ∧ callG m (goFilePreSt env file n0).1 gw (.func (fnName f.name)) gargs = .ok gv gw' ∧
+        VRel env η' v f.ret gv ∧ WRel env η' w' gw'
+    | .fail (.panic k) w' => ∃ m η' gw', η.le η' ∧ callG m (goFilePreSt env file n0).1 gw (.func (fnName f.name)) gargs =
+        .fail (.panic k) gw' ∧ WRel env η' w' gw'
+    | _ => True :=
+  compile_preserves_of_link (link_of_closed hG hP) f hf hfG η hη hηd args gargs hargs w gw hw fuel
+
+/-- the hypothesis on the program's dispatch table under which trait objects are simulated (decidable; the harness
+    evaluates it on every real program) -/
+def ImplsOK (env : Env) (file : AFile) (G : List String) (P : Prog) : Prop := implsOK env file G P = true
+
+instance (env : Env) (file : AFile) (G : List String) (P : Prog) : Decidable (ImplsOK env file G P) := by
+  unfold ImplsOK; infer_instance
+
+/-- **T1 with trait objects, function level.**  `G` may carry the flag `dynMarker` (`closedOKD`): then `EToDyn` and
+    method calls on trait objects are in the fragment, for the vtables of `dynTable env file G`; `Sem` dispatches through
+    `P.impls`, so the theorem assumes `ImplsOK`: the lookup `(trait, tyKey receiver, method)` finds the function the Go
+    wrapper calls. -/
+theorem compile_preserves_dyn (env : Env) (file : AFile) (n0 : Nat) (G : List String)
+    (hG : closedOKD env file n0 G = true) (P : Prog) (hP : P.fns = file.map AFn.toFn) (hI : ImplsOK env file G P)
+    (f : AFn) (hf : f ∈ file) (hfG : f.name ∈ G)
+    (η : Hp) (hη : η.fns = fnSigs file G) (hηd : η.dyns = dynTable env file G) (args : List Val) (gargs : List GVal)
+    (hargs : ArgsRel env η args gargs (f.params.map (·.2)))
+    (w : World) (gw : GWorld) (hw : WRel env η w gw) (fuel : Nat) :
+    match Sem.apply fuel P w (.fn f.name) args with
+    | .ok v w' => ∃ m η' gv gw', η.le η' ∧ callG m (goFilePreSt env file n0).1 gw (.func (fnName f.name)) gargs = .ok gv gw' ∧
+        VRel env η' v f.ret gv ∧ WRel env η' w' gw'
+    | .fail (.panic k) w' => ∃ m η' gw', η.le η' ∧ callG m (goFilePreSt env file n0).1 gw (.func (fnName f.name)) gargs =
+        .fail (.panic k) gw' ∧ WRel env η' w' gw'
+    | _ => True :=
+  compile_preserves_of_link (link_of_closedD hG hP (impls_of_ok hI)) f hf hfG η hη hηd args gargs hargs w gw hw fuel
+
 /-- the hypothesis of T1 as one decidable predicate on a function of a file -/
 def InGoFragment (env : Env) (file : AFile) (n0 : Nat) (f : AFn) : Prop := inGoFragment env file n0 f = true
 
 instance (env : Env) (file : AFile) (n0 : Nat) (f : AFn) : Decidable (InGoFragment env file n0 f) := by
   unfold InGoFragment; infer_instance
 
+/-- the same with trait objects admitted (the theorems then assume `ImplsOK`) -/
+def InGoFragmentD (env : Env) (file : AFile) (n0 : Nat) (f : AFn) : Prop := inGoFragmentD env file n0 f = true
+
+instance (env : Env) (file : AFile) (n0 : Nat) (f : AFn) : Decidable (InGoFragmentD env file n0 f) := by
+  unfold InGoFragmentD; infer_instance
+
 /-- **T1 for `InGoFragment`** (`G` = the set `goodFns` computes, its closure re-checked) -/
 theorem compile_preserves_fragment (env : Env) (file : AFile) (n0 : Nat) (f : AFn) (hf : f ∈ file)
     (hfrag : InGoFragment env file n0 f) (P : Prog) (hP : P.fns = file.map AFn.toFn)
-    (η : Hp) (hη : η.fns = fnSigs file (goodFns env file n0)) (args : List Val) (gargs : List GVal)
+    (η : Hp) (hη : η.fns = fnSigs file (goodFns env file n0)) (hηd : η.dyns = dynTable env file (goodFns env file n0))
+    (args : List Val) (gargs : List GVal)
     (hargs : ArgsRel env η args gargs (f.params.map (·.2)))
     (w : World) (gw : GWorld) (hw : WRel env η w gw) (fuel : Nat) :
     match Sem.apply fuel P w (.fn f.name) args with
@@ -109,28 +157,26 @@ theorem compile_preserves_fragment (env : Env) (file : AFile) (n0 : Nat) (f : AF
         .fail (.panic k) gw' ∧ WRel env η' w' gw'
     | _ => True := by
   simp only [InGoFragment, inGoFragment, Bool.and_eq_true] at hfrag
-  exact compile_preserves env file n0 _ hfrag.1 P hP f hf (by simpa using hfrag.2) η hη args gargs hargs w gw hw fuel
+  exact compile_preserves env file n0 _ hfrag.1 P hP f hf (by simpa using hfrag.2) η hη hηd args gargs hargs w gw hw fuel
 
-/-- **T1, whole program** (the shape `Props/C01pipe.lean` composes with): when the entry `main`
-    (no parameters) is in the fragment, every definite `Sem.run` of the ANF program is the `runGo`
-    outcome of the emitted file (before dead-code elimination) for some fuel — stdout, status and
-    extern events. -/
-theorem compile_preserves_run (env : Env) (file : AFile) (n0 : Nat) (G : List String)
-    (hG : closedOK env file n0 G = true) (f : AFn) (hf : f ∈ file) (hname : f.name = "main") (hps : f.params = [])
-    (hfG : "main" ∈ G) (P : Prog) (hP : P.fns = file.map AFn.toFn) (fuel : Nat) (eager : Bool)
+/-- T1 for whole programs from the facts about the two programs (`Link`) -/
+theorem compile_preserves_run_of_link {env : Env} {file : AFile} {n0 : Nat} {G : List String} {P : Prog}
+    (hl : Link env file G P (goFilePreSt env file n0).1)
+    (hnd : ((goFilePreSt env file n0).1.funcs.map (·.name)).Nodup)
+    (f : AFn) (hf : f ∈ file) (hname : f.name = "main") (hps : f.params = [])
+    (hfG : "main" ∈ G) (fuel : Nat) (eager : Bool)
     (hdef : (Sem.run fuel P "main" eager).status = "ok" ∨
       ∃ k, (Sem.run fuel P "main" eager).status = "panic:" ++ k) :
     ∃ m, runGo m (goFilePreSt env file n0).1 "main" eager = Sem.run fuel P "main" eager := by
-  have hl := link_of_closed hG hP
   -- the Go `main` wrapper
   have hmainMem : mainFn ∈ (goFilePreSt env file n0).1.funcs := by
     rw [funcs_goFilePre]; simp
-  have hnd : ((goFilePreSt env file n0).1.funcs.map (·.name)).Nodup := closed_funcs_nodup hG
   have hmainFind : (goFilePreSt env file n0).1.findFunc "main" = some mainFn := by
     have := find?_of_nodup (fun g : GFunc => g.name) _ hnd _ hmainMem
     simpa [GFile.findFunc, mainFn] using this
-  have hsim := (sim_all hl fuel).u f hf (hname ▸ hfG) { fns := fnSigs file G } [] [] { eager := eager } { eager := eager, capPolicy := 0 }
-    rfl (by rw [hps]; trivial) (WRel.init env eager (fnSigs file G))
+  have hsim := (sim_all hl fuel).u f hf (hname ▸ hfG) { fns := fnSigs file G, dyns := dynTable env file G } [] []
+    { eager := eager } { eager := eager, capPolicy := 0 }
+    rfl rfl (by rw [hps]; trivial) (WRel.init env eager (fnSigs file G) (dynTable env file G))
   rw [hname] at hsim
   have hfn : fnName "main" = "main0" := by simp [fnName, isEntry]
   rw [hfn] at hsim
@@ -171,6 +217,28 @@ theorem compile_preserves_run (env : Env) (file : AFile) (n0 : Nat) (G : List St
       · exact absurd (congrArg String.toList hd) (by simp)
       · exact absurd (congrArg String.toList hd) (by simp)
 
+/-- **T1, whole program** (the shape `Props/C01pipe.lean` composes with): when the entry `main`
+    (no parameters) is in the fragment, every definite `Sem.run` of the ANF program is the `runGo`
+    outcome of the emitted file (before dead-code elimination) for some fuel — stdout, status and
+    extern events. -/
+theorem compile_preserves_run (env : Env) (file : AFile) (n0 : Nat) (G : List String)
+    (hG : closedOK env file n0 G = true) (f : AFn) (hf : f ∈ file) (hname : f.name = "main") (hps : f.params = [])
+    (hfG : "main" ∈ G) (P : Prog) (hP : P.fns = file.map AFn.toFn) (fuel : Nat) (eager : Bool)
+    (hdef : (Sem.run fuel P "main" eager).status = "ok" ∨
+      ∃ k, (Sem.run fuel P "main" eager).status = "panic:" ++ k) :
+    ∃ m, runGo m (goFilePreSt env file n0).1 "main" eager = Sem.run fuel P "main" eager :=
+  compile_preserves_run_of_link (link_of_closed hG hP) (closed_funcs_nodup (closedD_of_closed hG).1) f hf hname hps hfG fuel eager hdef
+
+/-- **T1, whole program, with trait objects**: the same for a closed set that admits trait objects (`closedOKD`, `G` carries
+    `dynMarker`), under `ImplsOK` on the program's dispatch table -/
+theorem compile_preserves_run_dyn (env : Env) (file : AFile) (n0 : Nat) (G : List String)
+    (hG : closedOKD env file n0 G = true) (f : AFn) (hf : f ∈ file) (hname : f.name = "main") (hps : f.params = [])
+    (hfG : "main" ∈ G) (P : Prog) (hP : P.fns = file.map AFn.toFn) (hI : ImplsOK env file G P) (fuel : Nat) (eager : Bool)
+    (hdef : (Sem.run fuel P "main" eager).status = "ok" ∨
+      ∃ k, (Sem.run fuel P "main" eager).status = "panic:" ++ k) :
+    ∃ m, runGo m (goFilePreSt env file n0).1 "main" eager = Sem.run fuel P "main" eager :=
+  compile_preserves_run_of_link (link_of_closedD hG hP (impls_of_ok hI)) (closed_funcs_nodup hG) f hf hname hps hfG fuel eager hdef
+
 /-! ## statement level (what T1 is built from) -/
 
 /-- the hypotheses of the statement-level simulation at a program point, bundled: `e` is in the
@@ -186,7 +254,7 @@ structure Ready (env : Env) (η : Hp) (file : AFile) (G : List String) (Bad : Li
   names : GInv Bad (compileA env m st e).1 gρ
   target : TgtOK m Γ gρ (aTy e)
   blank : "_" ∈ Bad
-  fns : FCtx file G Bad η
+  fns : FCtx env file G Bad η
   callees : ∀ x, x ∈ calleesA (Γ.map (·.1)) e → x ∈ Bad
 
 /-- **T1, statement level**: the statements `compile_aexpr_effect` / `compile_aexpr_assign` emit for
@@ -503,6 +571,30 @@ example : InGoFragment envG exFileG 0 exApplyG ∧ InGoFragment envG exFileG 0 e
   constructor <;> (unfold InGoFragment; decide +kernel)
 example : (Sem.run 200 (progOf exFileG)).out = "spawned\nmain\n" ∧ (Sem.run 200 (progOf exFileG) "main" false).out = "main\n" := by
   decide +kernel
+/-- trait objects are inside `InGoFragmentD`: `trait Show { fn show(self) -> string }`, `impl Show for P`, and a `main` that
+    converts a `P` to `dyn Show` and calls the method through the vtable; the program's dispatch table satisfies `ImplsOK`;
+    without the flag (`InGoFragment`) the same `main` is outside -/
+private def envD : Env :=
+  { structs := [{ name := "P", generics := [], fields := [] }],
+    structsLookup := [{ name := "P", generics := [], fields := [] }],
+    traits := [("Show", [("show", .func [.param "Self"] .string)])] }
+private def implShowP : String := Goml.Mono.traitImplFnName "Show" (.struct "P") "show"
+private def exShowImpl : AFn :=
+  { name := implShowP, params := [("self/0", .struct "P")], ret := .string,
+    body := .ret (.imm (.prim (.str "a P") .string)) }
+private def exMainD : AFn :=
+  { name := "main", params := [], ret := .unit,
+    body :=
+      .letE "p/1" (.constr (.struct "P") [] (.struct "P"))
+      (.letE "d/2" (.toDyn "Show" (.struct "P") (.var "p/1" (.struct "P")) (.dyn "Show"))
+      (.letE "s/3" (.dynCall "Show" "show" (.var "d/2" (.dyn "Show")) [] .string)
+      (.ret (.call (.var "string_println" (.func [.string] .unit)) [.var "s/3" .string] .unit)) .unit) .unit) .unit }
+private def exFileD : AFile := [exShowImpl, exMainD]
+private def exProgD : Prog := { fns := exFileD.map AFn.toFn, impls := [("Show", "P", "show", implShowP)] }
+example : InGoFragmentD envD exFileD 0 exMainD ∧ InGoFragmentD envD exFileD 0 exShowImpl ∧ ¬ InGoFragment envD exFileD 0 exMainD := by
+  refine ⟨?_, ?_, ?_⟩ <;> (first | unfold InGoFragmentD | unfold InGoFragment) <;> decide +kernel
+example : ImplsOK envD exFileD (goodFnsD envD exFileD 0) exProgD := by unfold ImplsOK; decide +kernel
+example : (Sem.run 200 exProgD).status = "ok" ∧ (Sem.run 200 exProgD).out = "a P\n" := by decide +kernel
 end Examples
 
 end Goml.GoCompileProps
